@@ -418,6 +418,11 @@ func (t *tlFunc) taintedPayloadFlagged(ti *taintInfo, ps payloadStore) (bool, st
 					if !ok {
 						continue
 					}
+					// the flag store must be on every path through the slot store: same block, or one dominates the
+					// other with nothing but straight-line code in between (a flag set in a sibling case does not count)
+					if !flagStoreCovers(b, u.ins.Block()) {
+						continue
+					}
 					if tb2, f2, idx2, ok2 := t.tableElemAddr(st.Addr); ok2 && f2 == lv.fFlags && tb2 == u.tab && idx2 == u.idx {
 						fk, fv = flagKindOf(st.Val)
 					}
@@ -607,6 +612,25 @@ func indexCoversWholeTable(t *tlFunc, idx ssa.Value) bool {
 					return true
 				}
 			}
+		}
+	}
+	return false
+}
+
+// flagStoreCovers: every execution of block slot also executes block flag in the same iteration:
+// flag == slot, flag dominates slot, or slot dominates flag and flag is slot's unique successor chain.
+func flagStoreCovers(flag, slot *ssa.BasicBlock) bool {
+	if flag == slot || flag.Dominates(slot) {
+		return true
+	}
+	// straight-line continuation: slot -> ... -> flag through single-successor blocks
+	for b := slot; len(b.Succs) == 1; {
+		b = b.Succs[0]
+		if b == flag {
+			return true
+		}
+		if len(b.Preds) != 1 {
+			break
 		}
 	}
 	return false
